@@ -29,7 +29,7 @@ from typing import List
 from jinja2 import Environment, FunctionLoader, select_autoescape
 from jinja2.ext import GETTEXT_FUNCTIONS, babel_extract, extract_from_ast
 from markupsafe import Markup
-from vfw.core import Cond, pick
+from vfw.core import Cond, pick, pickb
 from vfw.support import NoTracing
 
 FUNCTIONS = [
@@ -396,6 +396,56 @@ def run_block(ctx, trim, policy, decl, plz, x, n, install, ae, sing, plur):
     return True
 
 
+# ------------------------------------------------------------------------------------------------ babel_extract options
+# The extractor builds its own Environment from string options; with the same lexer options as the rendering environment it
+# must see the same message strings the rendered template hands to gettext.
+BX_SRC = [
+    "{% trans %}\n    {{ a }} apple, 100% fresh\n    {% endtrans %}\n",
+    "<p>\n  {% trans count=n %}\n    one {{ count }}\n  {% pluralize %}\n    many {{ count }}\n  {% endtrans %}\n</p>",
+    "  {% trans trimmed %}\n  x {{ a }}\n   y\n  {% endtrans %}  \n{{ _('  lit\n') }}",
+    "{% trans %}a{% endtrans %}\n   {%- trans %} b {% endtrans -%}   \n{% trans %}\nc{% endtrans %}\n",
+    "    {% if a %}\n    {% trans %}\n      in if\n    {% endtrans %}\n    {% endif %}\n{{ ngettext('s', 'p', n) }}",
+]
+BX_DELIMS = [dict(), dict(variable_start_string="${", variable_end_string="}"), dict(line_statement_prefix="#", line_comment_prefix="//")]
+
+
+def _bx_native(si, trim, lstrip, ktn, newstyle, di):
+    d = BX_DELIMS[di]
+    src = BX_SRC[si]
+    if "variable_start_string" in d:
+        src = src.replace("{{", "${").replace("}}", "}")
+    env = Environment(extensions=["jinja2.ext.i18n"], trim_blocks=trim, lstrip_blocks=lstrip, keep_trailing_newline=ktn, **d)
+    env.install_gettext_callables(_g, _ng, newstyle=newstyle, pgettext=_pg, npgettext=_npg)
+    del LOG[:]
+    env.from_string(src).render(a="A", n=3)
+    calls = list(LOG)
+    del LOG[:]
+    opts = {"trim_blocks": str(trim).lower(), "lstrip_blocks": str(lstrip).lower(), "keep_trailing_newline": str(ktn).lower(),
+            "newstyle_gettext": str(newstyle).lower(), "silent": "false"}
+    opts.update(d)
+    alias = lambda f: "gettext" if f == "_" else f      # noqa: E731  (_ is the conventional alias of gettext)
+    got = {(alias(f), _strings(m)) for _l, f, m, _c in babel_extract(io.BytesIO(src.encode("utf-8")), GETTEXT_FUNCTIONS, [], opts)}
+    got2 = {(alias(f), _strings(m)) for _l, f, m in env.extract_translations(src)}
+    if not calls:
+        return False
+    for fn, strings, _num in calls:
+        if (fn, strings) not in got or (fn, strings) not in got2:
+            return False
+    return got == got2
+
+
+def babel_opts_ok(src: int, trim: bool, lstrip: bool, ktn: bool, newstyle: bool, delims: int) -> bool:
+    """
+    pre: 0 <= src < len(BX_SRC) and 0 <= delims < len(BX_DELIMS)
+    post: _
+    """
+    si = pick(src, len(BX_SRC))
+    t, l, k, ns = pickb(trim), pickb(lstrip), pickb(ktn), pickb(newstyle)
+    di = pick(delims, len(BX_DELIMS))
+    with NoTracing():
+        return _bx_native(si, t, l, k, ns, di)
+
+
 def _nseq(k, maxlen):
     return sum(k ** i for i in range(maxlen + 1))
 
@@ -727,4 +777,7 @@ def conditions(tier, seed):
                     bounds=f"n: any int; {len(A_SRC)} pluralising blocks (counter not printed) x installs (callables/null/translations, old/new) x effective autoescape "
                            "(env flag, autoescape block, runtime flag)"))
     setup(None)
+    out.append(Cond("babel_extract with lexer options", "babel_opts_ok", mode="B", param={}, timeout=120,
+                    witnesses=[[0, False, True, False, True, 0], [1, True, False, False, False, 1], [2, True, True, True, True, 2], [4, False, False, True, False, 0]],
+                    bounds=f"{len(BX_SRC)} multi-line templates x trim_blocks x lstrip_blocks x keep_trailing_newline x newstyle x {len(BX_DELIMS)} delimiter sets: every message handed to gettext at render time is among the messages babel_extract (same options as strings) and extract_translations report"))
     return out
